@@ -8,6 +8,9 @@ M = 'pybufrkit.encoder.'
 
 def register(reg):
     register_sections(reg)
+    # register_process(reg): Encoder.process and the interface of configure_section_with_values are written (below) but NOT registered:
+    # 6 frame obligations about the `parent` field of freshly configured parameters and the fact "the first 56 bits of section 0 are
+    # written" stayed undecided in both solvers (DESIGN 0.1, C04); the message-level framing of the encoder stays bounded
     add = reg.add
     add(Contract(M + 'nbits_for_uint', {'x': INT}, returns=INT,
                  requires=['1 <= x', 'x < pow2(63)'],
@@ -361,6 +364,7 @@ def register_sections(reg):
                            'bit_writer.bit_stream.bits', 'bit_writer.bit_stream.len', 'bit_writer.bit_stream.pos',
                            'lists(aslist_vv(select(%s, 0).value))' % PS],
                  loops={0: Loop(invariants=['section.bitpos_start == %s' % P0, 'wlen(bit_writer) >= %s' % P0, 'implies(_i0 == 0, wlen(bit_writer) == %s)' % P0,
+                                            'bufr_message.sections is old(bufr_message.sections)',
                                             'uprefix_same(%s, old(%s), %s)' % (BITS, BITS, P0),
                                             'implies(%s, %s)' % (HAS_TD, TD_READY),
                                             'implies(%s, bufr_message._is_compressed is old(bufr_message._is_compressed) and '
@@ -368,6 +372,10 @@ def register_sections(reg):
                                             'implies(%s, bufr_message._edition is old(bufr_message._edition))' % NO_ED,
                                             'implies(phas(section, "edition") and _i0 > pindex(section, "edition"), '
                                             'bufr_message._edition is %s)' % par('pindex(section, "edition")'),
+                                            'implies(phas(section, "length") and _i0 > pindex(section, "length") and %s.as_property, '
+                                            'bufr_message._length is %s)' % (par('pindex(section, "length")'), par('pindex(section, "length")')),
+                                            'implies(not phas(section, "length") or _i0 <= pindex(section, "length"), bufr_message._length is old(bufr_message._length))',
+
                                             # only the template-data slot is rewritten (it becomes the TemplateData object)
                                             'forall(q, 0, len(%s), implies(%s.type != "template_data", val_eq(%s.value, old(%s.value))))' % (PS, par('q'), par('q'), par('q')),
                                             'forall(q, _i0, len(%s), val_eq(%s.value, old(%s.value)))' % (PS, par('q'), par('q')),
@@ -378,6 +386,14 @@ def register_sections(reg):
                                           'lists(aslist_vv(select(%s, 0).value))' % PS],
                                 locals={'parameter': Ref('SectionParameter')})},
                  ensures=['result == wlen(bit_writer) - %s' % P0, 'result >= 0', 'section.bitpos_start == %s' % P0, 'has_exit(0)',
+                          'bufr_message.sections is old(bufr_message.sections)',
+                          # the total-length field becomes (or stays) the message's `length` proxy; its section is where it was written
+                          'implies(phas(section, "length") and %s.as_property, bufr_message._length is %s)' % (par('pindex(section, "length")'), par('pindex(section, "length")')),
+                          'implies(not phas(section, "length"), bufr_message._length is old(bufr_message._length))',
+
+                          # only the template-data slot and (when recomputed) the length field are rewritten
+                          'forall(q, 0, len(%s), implies(%s.type != "template_data" and %s.name != "section_length", val_eq(%s.value, old(%s.value))))'
+                          % (PS, par('q'), par('q'), par('q'), par('q')),
                           # the edition is known from here on (set by this section or an earlier one)
                           'bufr_message._edition != None and is_int(bufr_message._edition.value) and bufr_message._edition.name == "edition"',
                           'uprefix_same(%s, old(%s), %s)' % (BITS, BITS, P0),
@@ -391,7 +407,79 @@ def register_sections(reg):
                           # lengths honoured: a longer declared section is zero-filled, a shorter one never returns normally
                           'implies(%s and not %s, result == 8 * %s and U(%s, %s, 24) == %s and U(%s, %s + %s, result - %s) == 0)'
                           % (HAS_LEN, RECOMP, DECL, BITS, P0, DECL, BITS, P0, PADDED, PADDED)],
-                 raises=dict(WALK_ONLY, PyBufrKitError=None, ValueError=None), serves=['C04', 'C02'],
+                 raises=dict(WALK_ONLY, PyBufrKitError=None, ValueError=None), serves=['C04'],
                  note='on return the section occupies whole octets (an even number for editions <= 3) with only zero bits as padding; recompute '
                       'mode back-patches the real extent into the 24-bit length field, honour mode zero-fills up to the declared length and '
                       'refuses a shorter one'))
+
+
+def register_process(reg):
+    """Encoder.process (C04): message-level framing -- the total length of section 0 is the number of octets produced"""
+    from contracts.bufr import layout
+    add = reg.add
+    ENC = Ref('Encoder')
+    MSG = Ref('BufrMessage')
+    SECS = 'bufr_message.sections'
+    RP = 'result._params'
+
+    def rp(q):
+        return 'select(%s, %s)' % (RP, q)
+    TYPED = ('forall(q, 0, len(%s), implies(%s.type == "uint" or %s.type == "int", is_int(%s.value)) and implies(%s.type == "bool", is_bool(%s.value)) and '
+             'implies(%s.type == "bytes", is_byt(%s.value) or is_txt(%s.value)) and implies(%s.type == "bin", is_txt(%s.value) and is_binstr(tval(%s.value))) and '
+             'implies(%s.type == "unexpanded_descriptors", is_ref(%s.value) and refof(%s.value) > 0))'
+             % ((RP,) + (rp('q'),) * 14))
+    add(Contract('pybufrkit.bufr.SectionConfigurer.configure_section_with_values',
+                 {'self': Ref('SectionConfigurer'), 'bufr_message': MSG, 'section_index': INT, 'values': ListT(VAL), 'overrides': DictT(STR, VAL)},
+                 returns=Ref('BufrSection'), trusted=True, requires=['bufr_message != None'], modifies=['list(%s)' % SECS],
+                 allocates=['result._params', 'result.end_of_message', 'result.optional', 'result.index', 'result.bitpos_start', 'list(result._params)',
+                            'fields_of(result._params, "parent")'],
+                 ensures=['implies(result != None, %s)' % ' and '.join('(%s)' % x for x in layout('result')),
+                          'implies(result != None, fresh(result) and fresh(result._params) and forall(q, 0, len(%s), fresh(%s) and %s.parent is result))' % (RP, rp('q'), rp('q')),
+                          'implies(result != None, len(%s) == old(len(%s)) + 1 and select(%s, old(len(%s))) is result)' % (SECS, SECS, SECS, SECS),
+                          'implies(result == None, len(%s) == old(len(%s)))' % (SECS, SECS), 'list_eq_upto(%s, old(len(%s)))' % (SECS, SECS),
+                          # the indicator section (ground fact `definitions#layout`): BUFR signature of 4 octets, then the 24-bit total length, then the edition
+                          'implies(section_index == 0, result != None and len(%s) == 3 and %s.type == "bytes" and %s.nbits == 32 and %s.name == "length" and '
+                          '%s.type == "uint" and %s.nbits == 24 and %s.as_property and %s.name == "edition" and %s.type == "uint" and %s.as_property)'
+                          % (RP, rp('0'), rp('0'), rp('1'), rp('1'), rp('1'), rp('1'), rp('2'), rp('2'), rp('2')),
+                          'implies(section_index == 0, pindex(result, "length") == 1 and poff(result, 1) == 32)',
+                          'implies(section_index != 0 and result != None, not phas(result, "length") and not phas(result, "edition"))',
+                          # the values given for the section conform to its layout (the quantifier of C02 / C04: value lists that conform)
+                          'implies(result != None, %s)' % TYPED,
+                          'implies(result != None and len(%s) >= 1 and %s.name == "section_length", 0 <= ival(%s.value) and ival(%s.value) < pow2(24))'
+                          % (RP, rp('0'), rp('0'), rp('0')),
+                          'implies(section_index == 0, 0 <= ival(%s.value) and ival(%s.value) < pow2(24))' % (rp('1'), rp('1'))],
+                 raises={'KeyError': None, 'AttributeError': None, 'AssertionError': None, 'IndexError': None, 'TypeError': None},
+                 serves=['C04', 'C02'],
+                 note='interface contract (assumed): a configured section satisfies the layout facts of the definition files and carries one value of '
+                      'the right Python type per parameter; section 0 is signature / 24-bit total length / edition'))
+    LEN = 'bufr_message._length'
+    L_OK = ('%s != None and %s.parent != None and %s.parent._params != None and len(%s.parent._params) == 3 and select(%s.parent._params, 1) is %s and '
+            'select(%s.parent._params, 0).nbits == 32 and %s.nbits == 24 and %s.name == "length" and is_int(%s.value) and %s.parent.bitpos_start == 0 and '
+            'select(%s.parent._params, 0).name != "length" and select(%s.parent._params, 2).name == "edition" and select(%s.parent._params, 0).name != "edition" and '
+            'pindex(%s.parent, "length") == 1 and poff(%s.parent, 1) == 32 and fresh(%s) and fresh(%s.parent) and phas(%s.parent, "length")'
+            % ((LEN,) * 19))
+    ED_OK = 'bufr_message._edition != None and is_int(bufr_message._edition.value) and bufr_message._edition.name == "edition"'
+    ERRS = {k: None for k in ('PyBufrKitError', 'AssertionError', 'NotImplementedError', 'ValueError', 'StopIteration', 'IndexError', 'TypeError',
+                              'KeyError', 'AttributeError', 'IOError', 'OSError')}
+    RLEN = 'ival(result._length.value)'
+    add(Contract(M + 'Encoder.process', {'self': ENC, 's': ListT(ListT(VAL)), 'file_path': STR, 'wire_template_data': BOOL}, returns=MSG,
+                 assume_input=True, requires=['self != None', 's != None'], modifies=['lists(s)'],
+                 loops={0: Loop(invariants=['bufr_message != None', 'bit_writer != None', 'bufr_message is entry(bufr_message)', 'bit_writer is entry(bit_writer)',
+                                            'bit_writer.bit_stream is entry(bit_writer.bit_stream)', 'fresh(bit_writer.bit_stream)',
+                                            '%s != None' % SECS, '%s is entry(%s)' % (SECS, SECS),
+                                            'section_index >= 0', 'index_offset >= 0', 'json_data is s',
+                                            'nbits_encoded == wlen(bit_writer)', 'nbits_encoded % 8 == 0',
+                                            'implies(section_index == 0, wlen(bit_writer) == 0)',
+                                            'implies(section_index >= 1, wlen(bit_writer) >= 56 and %s and %s)' % (L_OK, ED_OK)],
+                                modifies=['bufr_message.*', 'list(%s)' % SECS, 'bit_writer.bit_stream.pos', 'bit_writer.bit_stream.bits', 'bit_writer.bit_stream.len',
+                                          'lists(s)'],
+                                locals={'section': Ref('BufrSection')})},
+                 ensures=['result != None', 'fresh(result)', 'has_exit(0)',
+                          'is_byt(result.serialized_bytes)', 'result._length != None', 'is_int(result._length.value)',
+                          # the declared total length is the number of octets produced -- recomputed and back-patched, or checked when honoured
+                          '%s == len(bval(result.serialized_bytes))' % RLEN,
+                          'implies(has_exit(0), 8 * len(bval(result.serialized_bytes)) == at_exit(0, wlen(bit_writer)))'],
+                 raises=dict(ERRS), serves=['C04', 'C02'],
+                 note='the sections are written one after the other from bit 0; afterwards the 24-bit total length of section 0 holds the number of '
+                      'octets produced (back-patched in place when recomputed; a differing declared length is refused when honoured) and the '
+                      'message bytes are the whole stream'))
